@@ -1,6 +1,7 @@
 """Shared by C03 / C08 (lead): builders for all shape classes, reflection over public members,
 canonical observation of a live object and comparison with a freshly constructed one."""
 import inspect
+import re
 import warnings
 
 import numpy as np
@@ -90,11 +91,13 @@ def probe_points(obj):
     return np.array(pts)
 
 
-def observe(obj, order_rng=None):
+def observe(obj, order_rng=None, json_names=None):
     """dict name -> canonical value; exceptions are recorded by kind. Face-indexed data are keyed by
     the face's vertex set so that a different (but equivalent) face order does not matter.
     order_rng: read the members in an order drawn from it (a query that refreshes a lazily cached attribute would
-    otherwise always run before the query that would have shown the stale value)."""
+    otherwise always run before the query that would have shown the stale value).
+    json_names: the attributes to export through to_json (None = every public property; pass the same list for the two
+    observations that are to be compared)."""
     out = {}
     cls = type(obj)
     faces = None
@@ -109,16 +112,14 @@ def observe(obj, order_rng=None):
         names = [names[i] for i in order_rng.permutation(len(names))]
         methods_first = bool(order_rng.random() < 0.5)
     if methods_first:
-        _observe_methods(obj, faces, out)
+        _observe_methods(obj, faces, out, json_names)
     for name in names:
-        if name in LOOSE:
-            # miniball picks its pivots with Python's global `random`; on cospherical vertex sets (boxes, prisms) its
-            # answer depends on them (an external library's numerical behaviour, judged by C13 with a certificate).
-            # Same vertices + same pivots = same answer, so that a difference here is a difference of the shape.
-            import random
-            random.seed(20240917)
         try:
-            val = getattr(obj, name)
+            if name in LOOSE:
+                with _seeded_globals():
+                    val = getattr(obj, name)
+            else:
+                val = getattr(obj, name)
         except Exception as e:
             out[name] = ("raise", exc_kind(e))
             continue
@@ -130,11 +131,28 @@ def observe(obj, order_rng=None):
         if abs(abs(nz) - 1.0) > 1e-12:
             del out["planar_moments_inertia"]
     if not methods_first:
-        _observe_methods(obj, faces, out)
+        _observe_methods(obj, faces, out, json_names)
     return out
 
 
-def _observe_methods(obj, faces, out):
+class _seeded_globals:
+    """miniball picks its pivots with Python's global `random`, and on a LinAlgError coxeter retries after perturbing
+    with `rowan.random.rand`, i.e. numpy's GLOBAL generator: both are seeded right before a LOOSE member is read (the
+    numpy state is put back afterwards), for the live and the fresh object alike."""
+
+    def __enter__(self):
+        import random
+        random.seed(20240917)
+        self.state = np.random.get_state()
+        np.random.seed(20240917)
+        return self
+
+    def __exit__(self, *exc):
+        np.random.set_state(self.state)
+        return False
+
+
+def _observe_methods(obj, faces, out, json_names=None):
     cls = type(obj)
     # queries that take arguments (methods): lazily cached per-face / per-simplex data hide behind these
     if callable(getattr(obj, "get_face_area", None)) and faces is not None:
@@ -178,6 +196,28 @@ def _observe_methods(obj, faces, out):
                 pass
             except Exception as e:
                 out["distance_to_surface(angles)"] = ("raise", exc_kind(e))
+    # what a user can print or export: repr(obj) and to_json([...]) must follow the mutations like everything else
+    try:
+        out["repr()"] = canon_repr(repr(obj))
+    except Exception as e:
+        out["repr()"] = ("raise", exc_kind(e))
+    if callable(getattr(obj, "to_json", None)):
+        tilted = False
+        if hasattr(obj, "normal"):
+            tilted = abs(abs(float(np.asarray(obj.normal, dtype=float)[2])) - 1.0) > 1e-12
+        for name in (public_properties(cls) if json_names is None else json_names):
+            if name == "planar_moments_inertia" and tilted:
+                continue        # see observe(): not a stable observable for a tilted plane
+            try:
+                if name in LOOSE:
+                    with _seeded_globals():
+                        val = obj.to_json([name])[name]
+                else:
+                    val = obj.to_json([name])[name]
+            except Exception as e:
+                out["to_json:" + name] = ("raise", exc_kind(e))
+                continue
+            out["to_json:" + name] = canon(name, val, faces)
     # queries
     try:
         pts = probe_points(obj)
@@ -237,6 +277,31 @@ def canon(name, val, faces):
     return ("repr", repr(val))
 
 
+_NUM = re.compile(r"(?<![A-Za-z_])[-+]?(?:\d+\.?\d*(?:[eE][-+]?\d+)?|nan|inf)")
+
+
+def canon_repr(text):
+    """repr(obj) split into its text skeleton and the numbers in it (compared numerically: a fresh object may store
+    a re-normalised normal that differs in the last bit). The `faces=` part of a Polyhedron / ConvexPolyhedron repr
+    is reduced to the set of canonical cycles (face order is not part of the property)."""
+    faces = None
+    k = text.find(", faces=[[")
+    if k >= 0 and text.endswith(")"):
+        import ast
+        try:
+            faces = frozenset(_canon_cycle(f) for f in ast.literal_eval(text[k + len(", faces="):-1]))
+            text = text[:k] + ")"
+        except Exception:
+            faces = None
+    nums = np.array([float(x) for x in _NUM.findall(text)], dtype=float)
+    return ("reprnum", _NUM.sub("#", text), nums, faces)
+
+
+def base_name(name):
+    """observable name without the access path prefix (`to_json:volume` -> `volume`)."""
+    return name.split(":", 1)[1] if name.startswith("to_json:") else name
+
+
 LOOSE = {"minimal_bounding_sphere", "minimal_bounding_circle", "minimal_bounding_sphere_radius",
          "minimal_bounding_circle_radius"}
 
@@ -254,6 +319,7 @@ def num_close(a, b, scale, tol):
 
 def degree(name):
     """length-dimension of an observable (for the comparison scale)."""
+    name = base_name(name)
     if "inertia" in name or name == "planar_moments_inertia":
         return 5 if "polar" not in name and "planar" not in name else 4
     if name == "form_factor_volume(q)":
@@ -268,20 +334,47 @@ def degree(name):
     return 1
 
 
-def compare(obs_a, obs_b, size, tol=1e-9):
-    """list of (name, a, b) where the two observations differ."""
+def compare(obs_a, obs_b, size, tol=1e-9, cond=1.0):
+    """list of (name, a, b) where the two observations differ.
+    cond: conditioning of the dimensionless observables, (diameter + distance from the origin) / diameter: the
+    coordinates of a small shape far from the origin carry a rounding error of 1e-16*distance, i.e. a RELATIVE
+    distortion of the shape of 1e-16*cond, which every dimensionless quantity (angles, iq, asphericity, normals)
+    inherits — their tolerance is tol*max(1, cond), as that of the dimensional ones is tol*size**degree."""
     diffs = []
     for name in sorted(set(obs_a) | set(obs_b)):
         if name not in obs_a or name not in obs_b:
             diffs.append((name, obs_a.get(name), obs_b.get(name)))
             continue
         a, b = obs_a[name], obs_b[name]
-        t = 1e-6 if name in LOOSE else tol
+        t = 1e-6 if base_name(name) in LOOSE else tol
+        if base_name(name) in LOOSE:
+            # the external, randomised miniball sometimes returns a non-minimal ball (minimality is C13's business, with
+            # a certificate). What a mutation must not do is leave a ball of the OLD geometry behind: the ball of
+            # `obs_a` (the live object) must contain all its CURRENT vertices and have a radius within 25 % of the
+            # other one's — a ball that missed a size setter (factors 0.31 … 2.0), a move or a rotation fails that.
+            if a[0] != b[0] or (a[0] == "raise" and a[1] != b[1]) or a[0] not in ("raise", "ball", "num"):
+                diffs.append((name, a, b))
+            elif a[0] != "raise":
+                ra, rb = float(np.ravel(a[1])[0]), float(np.ravel(b[1])[0])
+                same = num_close(a[1], b[1], size, t) and (a[0] != "ball" or num_close(a[2], b[2], size, t))
+                if same:
+                    # same vertices + same seeds = same answer, whatever its quality (miniball has been seen to return
+                    # balls that miss vertices by several per cent of the size: C13's business)
+                    continue
+                ok = np.isfinite(ra) and np.isfinite(rb) and abs(ra - rb) <= 0.25 * abs(rb)
+                va = obs_a.get("vertices")
+                if ok and a[0] == "ball" and va is not None and va[0] == "num":
+                    pts = np.asarray(va[1], dtype=float).reshape(-1, 3)
+                    dist = np.linalg.norm(pts - np.asarray(a[2], dtype=float), axis=1)
+                    ok = bool(np.all(dist <= ra + 1e-9 * max(size, 1e-300)))
+                if not ok:
+                    diffs.append((name, a, b))
+            continue
         if a[0] != b[0]:
             diffs.append((name, a, b))
             continue
         kind = a[0]
-        sc = max(size, 1e-300) ** degree(name) if degree(name) else 1.0
+        sc = max(size, 1e-300) ** degree(name) if degree(name) else max(1.0, cond)
         if kind == "raise" or kind == "repr" or kind == "set" or kind == "bools":
             if a[1] != b[1]:
                 diffs.append((name, a, b))
@@ -296,10 +389,14 @@ def compare(obs_a, obs_b, size, tol=1e-9):
                 diffs.append((name, "face sets differ", ""))
             else:
                 for k in a[1]:
-                    s2 = size if name in ("equations", "face_centroids") else (size ** 2 if name == "get_face_area()" else 1.0)
+                    s2 = size if base_name(name) in ("equations", "face_centroids") else (
+                        size ** 2 if name == "get_face_area()" else max(1.0, cond))
                     if not num_close(a[1][k], b[1][k], s2, t):
                         diffs.append((name, a[1][k], b[1][k]))
                         break
+        elif kind == "reprnum":
+            if a[1] != b[1] or a[3] != b[3] or not num_close(a[2], b[2], max(size, 1.0), t):
+                diffs.append((name, a, b))
         elif kind == "spec":
             if set(a[1]) != set(b[1]):
                 diffs.append((name, a, b))
@@ -311,6 +408,17 @@ def compare(obs_a, obs_b, size, tol=1e-9):
                     elif not num_close(a[1][k], b[1][k], size, t):
                         diffs.append((name, a, b))
     return diffs
+
+
+def cond_of(obj):
+    """(diameter + distance of the vertex mean from the origin) / diameter (1 for a centred shape)."""
+    if not hasattr(obj, "vertices"):
+        return 1.0
+    v = np.asarray(obj.vertices, dtype=float)
+    if not np.all(np.isfinite(v)):
+        return 1.0
+    d = float(gen.diameter(v))
+    return float((d + np.linalg.norm(v.mean(axis=0))) / d) if d > 0 else 1.0
 
 
 def size_of(obj):
@@ -333,6 +441,28 @@ def base_shape(rng, cls, flavour):
         if flavour in ("regular", "triangulated"):
             import itertools
             v = np.array(list(itertools.product([-1, 1], repeat=3)), dtype=float)
+            v = v @ gen.random_rotation(rng).T + off
+        elif flavour in ("lattice", "lattice-triangulated"):
+            # integer coordinates (box or right prism over a lattice polygon, integer offset): planarity of the faces,
+            # closure of the area vectors etc. hold EXACTLY, so that the sqrt-free certificate of the Lean invariant
+            # (`closedPolyCheck`, evaluated over Q by the driver) can be checked on the object's own data
+            a, b, c = (int(x) for x in rng.integers(1, 5, size=3))
+            if rng.random() < 0.5:
+                ring = np.array([[0, 0], [a, 0], [a, b], [0, b]], dtype=float)
+            else:
+                ring = np.array([[0, 0], [a + 1, 0], [a + 2, b], [1, b + 1], [-1, b]], dtype=float)
+            n = len(ring)
+            v = np.r_[np.c_[ring, np.zeros(n)], np.c_[ring, c * np.ones(n)]] + np.round(off)
+            v = v[rng.permutation(2 * n)]
+        elif flavour == "near-coplanar":
+            # a box with one corner pushed outwards by ~1e-10 of its size: the face opposite splits into two triangles
+            # whose planes agree to ~1e-10 — inside the default tolerance of merge_faces (1e-8), far outside the
+            # 2e-15 of ConvexPolyhedron._combine_simplices
+            import itertools
+            v = np.array(list(itertools.product([-1, 1], repeat=3)), dtype=float) * np.array(
+                [1.0, float(rng.uniform(0.7, 1.3)), float(rng.uniform(0.7, 1.3))])
+            k = int(rng.integers(8))
+            v[k] *= 1.0 + float(rng.choice([1e-9, 3e-10, 1e-10, 1e-11]))
             v = v @ gen.random_rotation(rng).T + off
         elif flavour == "triangulated-shuffled":
             # box or n-gonal prism; vertices relabelled below, faces fan-triangulated from a random corner, face order
@@ -358,7 +488,7 @@ def base_shape(rng, cls, flavour):
             return S.ConvexSpheropolyhedron(v, float(rng.uniform(0.1, 0.5)))
         cp = S.ConvexPolyhedron(v)
         faces = [np.array(f) for f in cp.faces]
-        if flavour == "triangulated":
+        if flavour in ("triangulated", "lattice-triangulated"):
             # fan-triangulated faces: merge_faces has real work to do
             faces = [np.array([f[0], f[i], f[i + 1]]) for f in cp.faces for i in range(1, len(f) - 1)]
         if flavour == "triangulated-shuffled":
